@@ -366,14 +366,23 @@ func (sc *SubCache[EntityT, ExcerptT, CacheT]) Resolve(id entity.Id) (CacheT, er
 	}
 	sc.mu.RUnlock()
 
+	// Load the entity while holding the write lock, and only if nobody loaded it in
+	// between: two instances of the same entity would overwrite each other's commits.
+	sc.mu.Lock()
+	cached, ok = sc.cached[id]
+	if ok {
+		sc.lru.Get(id)
+		sc.mu.Unlock()
+		return cached, nil
+	}
+
 	e, err := sc.actions.ReadWithResolver(sc.repo, sc.resolvers(), id)
 	if err != nil {
+		sc.mu.Unlock()
 		return *new(CacheT), err
 	}
 
 	cached = sc.makeCached(e, sc.entityUpdated)
-
-	sc.mu.Lock()
 	sc.cached[id] = cached
 	sc.lru.Add(id)
 	sc.mu.Unlock()
